@@ -98,6 +98,29 @@ def blocks():
         expect=lambda a, p: (lambda wl: {"entries": {(0, 1): np.exp(1j * np.pi * (2 * neff(wl, p.get("R", a["R"]), p.get("w", a["w"]), p.get("pol", 0)) * float(a["L"]) / wl
                                                                                   + float(p.get("PS", 0.0)))), (0, 0): 0, (1, 1): 0},
                                          "unitary": True})(float(p.get("wl", a["wl"]))))
+    # multi-mode user waveguide whose modes carry *different* sets of extra settings (each mode sees only its own extras,
+    # missing ones fall back to the index function's defaults); modes listed sparse-last and sparse-first
+    def midx(wl, T=0.0, pol=0, order=0, **kw):
+        return 1.5 + 0.01 * wl + 0.02 * float(T) + 0.1 * pol + 0.03 * order
+    MODESETS = [{"TE0": {"pol": 0}, "TE1": {"pol": 0, "order": 1}, "TM0": {"pol": 1}}, {"TM": {"pol": 1, "order": 2}, "TE": {}},
+                {"A": {}, "B": {"order": 1}, "C": {"pol": 1}}]
+
+    def uw_multi_expect(a, p):
+        ms = MODESETS[int(a["modeset"])]
+        wl, T = float(p.get("wl", a["wl"])), float(p.get("T", a["T"]))
+        ent = {}
+        for i, (mode, extra) in enumerate(ms.items()):
+            ph = np.exp(2j * np.pi * midx(wl, T, **extra) * float(a["L"]) / wl)
+            ent[(2 * i, 2 * i + 1)] = ph
+            ent[(2 * i + 1, 2 * i)] = ph
+            ent[(2 * i, 2 * i)] = 0
+            for j in range(2 * len(ms)):
+                if j // 2 != i:
+                    ent[(2 * i, j)] = 0                     # no coupling between modes
+        return {"entries": ent, "unitary": True}
+    B["UserWaveguide:multimode"] = dict(
+        make=lambda a: L.UserWaveguide(L=a["L"], func=midx, param_dic={"wl": a["wl"], "T": a["T"]}, allowedmodes={k: dict(v) for k, v in MODESETS[int(a["modeset"])].items()}),
+        args={"L": (0, 50), "wl": (1, 2), "T": (-3, 3), "modeset": (0, 2)}, params={"wl": (1, 2), "T": (-3, 3)}, expect=uw_multi_expect)
     # documented models without a stated closed form in the property: generic claims only (power-reciprocal,
     # reflection-free as documented; no gain where the model does not depend on a geometry) plus the uniform interface.
     # FPR / FPRGaussian normalise by 1/sqrt(max(n, m)) and conserve power only near the star-coupler design condition
@@ -115,7 +138,7 @@ def blocks():
     return B
 
 
-INT_ONLY = {"N", "M"}
+INT_ONLY = {"N", "M", "modeset"}
 INT_OK = {"L", "n", "wl", "ratio", "phase", "d", "angle", "loss", "c", "ref", "PS", "R", "w", "T", "pol"}
 
 
